@@ -67,7 +67,7 @@ def conditions(tier):
         for ins in (EMPTY, COMMENT):
             if key[1] == "tag-pending" and q and i % 4:
                 continue
-            if (q and i % 16) or (not q and i % 2):
+            if (q and i % 16) or (not q and i % 4):
                 cs.append(Cond("harness.pdrv", "insertion_neutral1", {"prefix": seq, "ins": ins, "next": STEP if i % 2 else SCENARIO}, T=300,
                                label="pdrv.insertion1[ins=%d,prefix=%s]" % (ins, ",".join(map(str, seq)))))
             else:
